@@ -99,3 +99,12 @@ prop("C02",
      "under one and the same guard, which looks through aliases; (PN1) the Python line reader distinguishes a null value from an absent step.",
      "Numeric fidelity, key order, the C++ NDJSON runtime headers (nlohmann/json is not installed, so they cannot be parsed), value equality after a round trip.",
      COMMON_ASSUME + ["refs/jsonkinds.json transcribes docs/reference/ndjson.md correctly"])
+
+prop("C07",
+     "The protocol state machines exist only as emitted text. Every emission of cpp/python/matlab protocols.go that mentions the state variable "
+     "(guards, assignments, error calls, Close checks, the Python _wrap_iterable epilogue, any try/finally) is extracted with its model-shape guards "
+     "(stream / non-stream / previous step is a stream / batch overload), helper-function parameters are substituted from their call sites, and each %d "
+     "argument is reduced to an affine form a*i + b*n + c over the step index and step count. The table must equal the reviewed reference state machine "
+     "(refs/statemachine.json): an off-by-one in any of the ~90 state numbers, a changed emission guard, a new emission or a missing one is reported with its position.",
+     "Behaviour of the emitted text beyond these numbers (target-language syntax, the Impl methods themselves); that the reference state machine accepts exactly the legal call sequences was established by review, not mechanically.",
+     COMMON_ASSUME)
